@@ -81,7 +81,7 @@ class Unit:
         sel = self.names[short]
         q, sub = (sel, None) if isinstance(sel, str) else sel
         pool = self.json['functions'] + self.json['no_body']
-        hits = [f for f in pool if f['qualified'] == q and (sub is None or sub in f.get('type', '') or sub in f['name'])]
+        hits = [f for f in pool if f['qualified'] == q and (sub is None or (sub.startswith('=') and f['name'] == sub[1:]) or (not sub.startswith('=') and (sub in f.get('type', '') or sub in f['name'])))]
         names = sorted(set(f['name'] for f in hits))
         if len(names) != 1:
             raise Undecided('MUST-FIRE: selector %s=%r matches %d functions in unit %s: %s' % (short, sel, len(names), self.name, names[:5]))
@@ -194,7 +194,12 @@ def run_ob(ob, workdir, keep=False):
         am, used = stdmodels.auto_models(u.json, skip=[u.resolve_text('@{%s}' % k) for k in getattr(u, 'std', {}) if True and _safe(u, k)])
         src += '/* ---- generated std models */\n' + am
         res['std_models'] = used
-        src += '/* ---- harness: %s */\n' % ob.harness + u.resolve_text(open(os.path.join(VERIF, 'harness', ob.harness)).read()) + '\n'
+        if getattr(ob, 'gen', None):      # harness generated from the lowered unit's JSON index
+            gtext, gskip, ginfo = ob.gen(u)
+            src += '/* ---- generated harness */\n' + u.resolve_text(gtext) + '\n'
+            ob.skip = list(set(ob.skip) | set(gskip)); res['generated'] = ginfo
+        else:
+            src += '/* ---- harness: %s */\n' % ob.harness + u.resolve_text(open(os.path.join(VERIF, 'harness', ob.harness)).read()) + '\n'
         cpath = os.path.join(d, 'ob.c')
         open(cpath, 'w').write(src)
         entry = u.resolve_text(ob.entry)
@@ -247,7 +252,7 @@ def run_ob(ob, workdir, keep=False):
         if 'ignoring' in out and re.search(r'ignoring (forall|exists|quantif)', out):
             raise Undecided('cbmc ignored a quantifier')
         res['properties'] = len(results)
-        failed, canaries, canary_pass = [], 0, []
+        failed, canaries, canary_pass, unknown = [], 0, [], []
         for r in results:
             desc = r.get('description', '')
             if desc.startswith('CANARY'):
@@ -261,13 +266,15 @@ def run_ob(ob, workdir, keep=False):
                 failed.append(dict(property=r.get('property'), description=desc, location=r.get('sourceLocation', {}),
                                    values=trace_values(r.get('trace'))))
             elif r['status'] != 'SUCCESS':
-                raise Undecided('property %s has status %s' % (r.get('property'), r['status']))
+                unknown.append(r.get('property'))
         res['canaries'] = canaries
         res['properties'] = len(results) - canaries
         if ob.loops and not any('loop invariant' in (r.get('description', '').lower()) for r in results):
             raise Undecided('loop contracts requested but no loop-invariant obligation was generated')
         if failed:
             res['status'], res['failed'] = 'fail', failed
+        elif unknown:
+            raise Undecided('cbmc left %d properties undecided, e.g. %s' % (len(unknown), unknown[0]))
         elif canaries == 0 and not getattr(ob, 'no_canary', False):
             raise Undecided('harness has no canary (vacuity guard missing)')
         elif canary_pass:
